@@ -15,6 +15,12 @@ sequential path.
           non-empty ordered subset of the three tiers, k in {1,2,64}, clusters_top_m in {1,3}, workers 2..4,
           every completion order of the per-shard tasks.  Oracle: items / order / scores / residual deltas /
           metrics of the sequential stage.
+          + index-history leg: the contents are REACHED on one index object that has already served the fan-out
+          (add P1, query, clear() + add P2 | keep adding P2, judged query), the sequential twin replays the same
+          history on its own object.
+
+A task the implementation withdraws from the pool (Future cancelled while queued) is part of the pool model
+(``GateController``): it is an outcome judged by the oracle, not a harness time-out.
 """
 from __future__ import annotations
 
@@ -36,6 +42,60 @@ for _m, _n in ((par_mod, "run_parallel"), (par_mod, "ParallelError"), (t1_mod, "
                (t1_mod, "t1_propagate"), (t2_core, "run_parallel"), (t2_core, "t2_semantic")):
     if not hasattr(_m, _n):
         raise HarnessError("seam missing: %s.%s" % (_m.__name__, _n))
+
+
+class GateController(po.OrderController):
+    """``OrderController`` whose pool model also covers tasks the implementation decides NOT to start.
+
+    The base controller waits until every task the FIFO model says is running has arrived at its gate; a task
+    that never shows up is a harness error after a 60 s timeout.  An implementation that withdraws work that is
+    still queued (``Future.cancel()`` on a pending future: the pool drops the work item, the body never runs)
+    makes exactly that happen although nothing is wrong with the machinery -- the ENGINE did not execute a task.
+    That is an outcome for the oracle (task not executed / failure not reported), not a crash.  A cancelled
+    future is observable without any timing assumption (its done-callback fires with ``cancelled()`` true), so
+    the model is extended: a task whose future was cancelled before it started leaves the queue, i.e. it counts
+    as finished for the running-set computation and is skipped in the prescribed completion order.  Nothing
+    changes for an implementation that never cancels (``cancelled`` stays empty)."""
+
+    def __init__(self, n, w, order, timeout: float = po.DEFAULT_TIMEOUT):
+        super().__init__(n, w, order, timeout)
+        self.cancelled: List[int] = []  # tasks whose future was cancelled before the body started
+
+    def _gone(self) -> List[int]:
+        return list(self.done) + [i for i in self.cancelled if i not in self.done]
+
+    def _advance(self) -> None:
+        while len(self.done) < len(self.order):
+            nxt = self.order[len(self.done)]
+            if nxt in self.cancelled and nxt not in self.arrived:
+                self.done.append(nxt)
+            elif nxt in self.returned and (not self.pool_used or nxt in self.future_done):
+                self.done.append(nxt)
+            else:
+                break
+
+    def _can_run(self, idx: int) -> bool:
+        if self.hold or len(self.done) >= len(self.order) or self.order[len(self.done)] != idx:
+            return False
+        if any(r not in self.done for r in self.released):
+            return False
+        return all(i in self.arrived for i in po.running_set(self.n, self.w, self._gone()))
+
+    def _register_future(self, idx: int, fut) -> None:
+        with self.cv:
+            self.futures[idx] = fut
+
+        def _cb(f, idx=idx):
+            with self.cv:
+                if f.cancelled():
+                    if idx not in self.cancelled:
+                        self.cancelled.append(idx)
+                else:
+                    self.future_done.append(idx)
+                self._advance()
+                self.cv.notify_all()
+
+        fut.add_done_callback(_cb)
 
 
 def _viol(st, sig: str, what: str, case) -> None:
@@ -112,12 +172,13 @@ def _helper_exec(n, shape, w, fails, order):
             return ["r", i]
         return f
 
-    ctl = po.OrderController(n, w, order)
+    ctl = GateController(n, w, order)
     tasks = [(keys[i], ctl.wrap(i, body(i))) for i in range(n)]
     with po.observe_pool(par_mod):
         kind, val = ctl.run(lambda: par_mod.run_parallel(tasks, max_workers=w, merge_fn=merge_fn, order_key=okey))
     obs: Dict[str, Any] = {"kind": kind, "merge_calls": merge_calls, "executions": dict(ctl.executions),
-                           "returned": list(ctl.returned), "early": list(ctl.early), "pool_used": ctl.pool_used}
+                           "returned": list(ctl.returned), "early": list(ctl.early), "pool_used": ctl.pool_used,
+                           "cancelled": sorted(ctl.cancelled)}
     if kind == "ok":
         obs["value"] = val
     else:
@@ -127,6 +188,11 @@ def _helper_exec(n, shape, w, fails, order):
         if isinstance(val, par_mod.ParallelError) and errs is not None:
             obs["errors"] = [(e.key, e.exc_type, e.message) for e in errs]
     return obs
+
+
+def _withdrawn(obs) -> str:
+    c = obs.get("cancelled") or []
+    return " (queued tasks %r were withdrawn from the pool: their futures were cancelled before they started)" % (c,) if c else ""
 
 
 def _helper_check(n, shape, w, fails, order, obs) -> List[Tuple[str, str]]:
@@ -152,7 +218,7 @@ def _helper_check(n, shape, w, fails, order, obs) -> List[Tuple[str, str]]:
         elif obs["value"] != exp_val:
             out.append(("helper:%s:return-value-is-not-merge-result" % path, "%s: returned %r" % (tag, obs["value"])))
         if sorted(obs["executions"]) != list(range(n)):
-            out.append(("helper:%s:task-not-executed" % path, "%s: executed %r" % (tag, sorted(obs["executions"]))))
+            out.append(("helper:%s:task-not-executed" % path, "%s: executed %r%s" % (tag, sorted(obs["executions"]), _withdrawn(obs))))
         return out
     # ---- some task fails
     if obs["merge_calls"]:
@@ -177,7 +243,7 @@ def _helper_check(n, shape, w, fails, order, obs) -> List[Tuple[str, str]]:
         out.append(("helper:%s:errors-not-sorted-by-key:%s" % (path, cls),
                     "%s: ParallelError.errors=%r" % (tag, got)))
     if path == "pool" and sorted(obs["executions"]) != list(range(n)):
-        out.append(("helper:pool:task-not-executed", "%s: executed %r" % (tag, sorted(obs["executions"]))))
+        out.append(("helper:pool:task-not-executed", "%s: executed %r%s" % (tag, sorted(obs["executions"]), _withdrawn(obs))))
     return out
 
 
@@ -246,7 +312,7 @@ class StageGate:
         self.module = module
         self.order = None if order is None else tuple(order)
         self.calls: List[Dict[str, Any]] = []
-        self.ctl: Optional[po.OrderController] = None
+        self.ctl: Optional[GateController] = None
         self.harness_error: Optional[str] = None
         self.real = None
 
@@ -264,7 +330,7 @@ class StageGate:
             raise HarnessError(self.harness_error)
         order = self.order if self.order is not None else next(iter(po.feasible_orders(n, w)))
         try:
-            ctl = po.OrderController(n, w, order)
+            ctl = GateController(n, w, order)
         except HarnessError as e:
             self.harness_error = str(e)
             raise
@@ -489,15 +555,58 @@ T2_CACHE_DIAG = {"cache_used", "cache_hits", "cache_misses", "t2.cache_evictions
 T2_PAR_DIAG = {"t2.task_count", "t2.parallel_workers", "t2.partition_count", "task_count", "parallel_workers", "partition_count"}
 
 
+def _t2_episode(eid: str):
+    spec = T2_EPISODES[eid]
+    if spec["days_ago"] is None:
+        return W._ep(eid, spec["owner"], spec["text"], 0, spec["cluster"], spec["importance"], ts=None)
+    return W._ep(eid, spec["owner"], spec["text"], spec["days_ago"], spec["cluster"], spec["importance"])
+
+
 def _t2_index(mem: Sequence[str]):
     idx = InMemoryIndex()
     for eid in mem:
-        spec = T2_EPISODES[eid]
-        if spec["days_ago"] is None:
-            idx.add(W._ep(eid, spec["owner"], spec["text"], 0, spec["cluster"], spec["importance"], ts=None))
-        else:
-            idx.add(W._ep(eid, spec["owner"], spec["text"], spec["days_ago"], spec["cluster"], spec["importance"]))
+        idx.add(_t2_episode(eid))
     return idx
+
+
+def _t2_hist(case) -> List[str]:
+    """History of the ONE index object between its construction from case['mem'] and the judged query: a list of
+    operations of the index's public interface -- '+<eid>' add, 'C' clear() -- and '?<text>' = an earlier query
+    answered by the same stage configuration in the same process.  ('pre_text' is the one-query history.)"""
+    h = list(case.get("hist") or [])
+    if case.get("pre_text") is not None:
+        h = ["?" + case["pre_text"]] + h
+    return h
+
+
+def _t2_contents(case) -> List[str]:
+    """Reference model of the index contents at the judged query."""
+    cur = list(case["mem"])
+    for op in _t2_hist(case):
+        if op == "C":
+            cur = []
+        elif op.startswith("+"):
+            cur.append(op[1:])
+    return cur
+
+
+def _t2_play(hist, state, cfg, t1, swallow: bool):
+    idx = state["mem_index"]
+    for op in hist:
+        if op == "C":
+            idx.clear()
+        elif op.startswith("+"):
+            idx.add(_t2_episode(op[1:]))
+        elif op.startswith("?"):
+            try:
+                t2_core.t2_semantic(W.make_ctx(cfg, "A", 1), state, op[1:], t1)
+            except HarnessError:
+                raise
+            except Exception:  # noqa: BLE001
+                if not swallow:
+                    raise
+        else:
+            raise HarnessError("unknown index-history operation %r" % (op,))
 
 
 def _t2_cfg(tiers, k, m, w, parallel: bool, scope: str = "any"):
@@ -525,24 +634,20 @@ def _t2_exec(case, order):
     state = _t2_state(case["mem"])
     t1 = types.SimpleNamespace(graph_deltas=[], metrics={})
     scope = case.get("scope", "any")
-    pre = case.get("pre_text")
+    hist = _t2_hist(case)
     if order is None:
         cfg = _t2_cfg(case["tiers"], case["k"], case["m"], case["w"], False, scope)
         try:
-            if pre is not None:
-                t2_core.t2_semantic(W.make_ctx(cfg, "A", 1), state, pre, t1)
+            _t2_play(hist, state, cfg, t1, swallow=False)
             return ("ok", t2_core.t2_semantic(W.make_ctx(cfg, "A", 1), state, case["text"], t1)), None
         except HarnessError:
             raise
         except Exception as e:  # noqa: BLE001
             return ("exc", e), None
     cfg = _t2_cfg(case["tiers"], case["k"], case["m"], case["w"], True, scope)
-    if pre is not None:
-        # an earlier, different query against the same index object in the same process (free-running pool)
-        try:
-            t2_core.t2_semantic(W.make_ctx(cfg, "A", 1), state, pre, t1)
-        except Exception:  # noqa: BLE001
-            pass
+    # the history runs on the same index object in the same process under the parallel configuration; the earlier
+    # queries use the free-running pool, the judged query the gated one
+    _t2_play(hist, state, cfg, t1, swallow=True)
     gate = StageGate(t2_core, None if order == "census" else order)
     with gate:
         try:
@@ -602,9 +707,16 @@ def _t2_diff(seq, par, gate) -> List[Tuple[str, str]]:
 
 
 def _t2_tag(case):
-    return "episodes=%r tiers=%r k=%d clusters_top_m=%d workers=%d query=%r%s" % (
+    hist = _t2_hist(case)
+    return "episodes=%r tiers=%r k=%d clusters_top_m=%d workers=%d query=%r%s%s" % (
         list(case["mem"]), list(case["tiers"]), case["k"], case["m"], case["w"], case["text"],
-        "" if case.get("scope", "any") == "any" else " owner_scope=%s" % case["scope"])
+        "" if case.get("scope", "any") == "any" else " owner_scope=%s" % case["scope"],
+        "" if not hist else " then-on-the-same-index=%r (contents at the judged query: %r)" % (hist, _t2_contents(case)))
+
+
+def _t2_state_key(case, order):
+    return ("t2", tuple(case["mem"]), tuple(case["tiers"]), case["k"], case["m"], case["w"], case.get("scope"),
+            tuple(_t2_hist(case)), case["text"], order)
 
 
 def _t2_attribute(case, order, kind) -> str:
@@ -635,7 +747,7 @@ def _t2_group(case, st: Optional[Stats]) -> List[Tuple[str, str, dict]]:
         if st is not None:
             st.add("validated")
             st.add("t2_no_fanout")
-            st.distinct("states", ("t2", tuple(case["mem"]), tuple(case["tiers"]), case["k"], case["m"], case["w"], case.get("scope"), None))
+            st.distinct("states", _t2_state_key(case, None))
     else:
         n, w = gate.calls[0]["n"], gate.calls[0]["w"]
         for order in po.feasible_orders(n, w):
@@ -646,7 +758,11 @@ def _t2_group(case, st: Optional[Stats]) -> List[Tuple[str, str, dict]]:
                 st.add("transitions")
                 st.add("validated")
                 st.add("t2_executions")
-                st.distinct("states", ("t2", tuple(case["mem"]), tuple(case["tiers"]), case["k"], case["m"], case["w"], case.get("scope"), order))
+                st.distinct("states", _t2_state_key(case, order))
+                if case.get("hist"):
+                    st.add("t2_history_executions")
+                    if "C" in case["hist"] and len(_t2_contents(case)) == len(case["mem"]):
+                        st.add("t2_history_same_size_after_clear")
                 st.distinct("outcomes", ("t2", par[0], tuple(_t2_view(par[1])["ids"]) if par[0] == "ok" else type(par[1]).__name__))
                 if list(order) != sorted(order):
                     st.add("nontrivial")
@@ -718,6 +834,62 @@ def t2_units(thorough: bool, seed: int):
                     for pre_text, text in (("pear cider", T2_TEXT), (T2_TEXT, "pear cider")):
                         units.append({"kind": "t2", "mem": list(mem), "tiers": tiers, "k": k, "m": 1, "w": w, "text": text,
                                       "pre_text": pre_text})
+    units.extend(t2_history_units(thorough))
+    return units
+
+
+def t2_history_units(thorough: bool):
+    """Index-history leg: 'all memory contents' includes contents REACHED by the index's public mutators on an object
+    that has already served the fan-out.  One index object: add P1, answer a query, then either clear() and add P2
+    (every ordered selection, so also |P2| == |P1|: the version counter returns to an earlier value) or keep growing
+    by P2; then the judged query.  Whatever the fan-out derives from the index (shard views, cluster choices, ...) has
+    to follow the contents, as the sequential path does."""
+    base = ["a", "c", "e"] + (["b"] if thorough else [])
+    grow_pool = ["a", "c", "e", "b"]
+
+    def sel(pool, sizes):
+        return [list(p) for r in sizes for p in itertools.permutations(pool, r)]
+
+    hists: List[Tuple[List[str], List[str]]] = []
+    for p1 in sel(base, (2, 3)):
+        for p2 in sel(base, (2, 3)):
+            hists.append((p1, ["C"] + ["+" + e for e in p2]))
+        for p2 in sel([e for e in grow_pool if e not in p1], (1, 2)):
+            if len(p1) + len(p2) <= 4:
+                hists.append((p1, ["+" + e for e in p2]))
+    tier_lists = [["exact_semantic"], ["cluster_semantic"], ["exact_semantic", "cluster_semantic", "archive"]]
+    if thorough:
+        tier_lists.append(["archive"])
+    units = []
+    for mem, ops in hists:
+        small = "b" not in mem and "+b" not in ops  # history over the 3-episode alphabet
+        n_final = len(_t2_contents({"mem": mem, "hist": ops}))
+        # the swapped pair of query texts only over the 3-episode alphabet (thorough)
+        text_pairs = [("pear cider", T2_TEXT)] + ([(T2_TEXT, "pear cider")] if thorough and small else [])
+        # with c episodes the shard partition for w > c equals the one for w = c: a 4th worker only matters for 4 episodes
+        ws = (2, 3) + ((4,) if thorough and n_final >= 4 else ())
+        for tiers in tier_lists:
+            for k in (1, 64):
+                for w in ws:
+                    for pre_text, text in text_pairs:
+                        units.append({"kind": "t2", "mem": mem, "tiers": tiers, "k": k, "m": 1, "w": w, "text": text,
+                                      "hist": ["?" + pre_text] + ops})
+    if thorough:
+        # clear() on an index that has not answered a query yet (ops only), and two clear-and-refill cycles
+        for mem, ops in hists:
+            if ops[0] != "C" or "b" in mem or "+b" in ops:
+                continue
+            for tiers in tier_lists[:3]:
+                for w in (2, 3):
+                    units.append({"kind": "t2", "mem": mem, "tiers": tiers, "k": 64, "m": 1, "w": w, "text": T2_TEXT, "hist": list(ops)})
+        pairs = sel(["a", "c", "e"], (2,))
+        for p1 in pairs:
+            for p2 in pairs:
+                for p3 in pairs:
+                    for tiers in tier_lists[:3]:
+                        for w in (2, 3):
+                            units.append({"kind": "t2", "mem": p1, "tiers": tiers, "k": 64, "m": 1, "w": w, "text": T2_TEXT,
+                                          "hist": ["?pear cider", "C"] + ["+" + e for e in p2] + ["?fig tart", "C"] + ["+" + e for e in p3]})
     return units
 
 
@@ -743,6 +915,7 @@ def run(run: Run) -> None:
     run.notes["helper_groups"] = len(hu)
     run.notes["t1_groups"] = len(tu)
     run.notes["t2_groups"] = len(t2u)
+    run.notes["t2_history_groups"] = sum(1 for u in t2u if u.get("hist"))
     run.notes["helper_orders_by_n_w"] = {"n=%d" % n: [po.count_orders(n, w) for w in range(9)] for n in range(0, (5 if run.thorough else 4) + 1)}
     import time as _time
     t0 = _time.time()
@@ -767,13 +940,25 @@ def run(run: Run) -> None:
                 "enforced on the real ThreadPoolExecutor by gated thunks) x (helper) n<=%d tasks, max_workers 0..8, every failing subset, "
                 "%d key shapes; (T1) %d groups = graph lists x texts x cap settings x workers 2..4 x LRU capacity {1,512} x fresh/pre-warmed; "
                 "(T2) %d groups = ordered episode selections (<=%d of %d) x tier lists x k {1,2,64} x clusters_top_m {1,3} x workers 2..4 "
-                "(+ owner_scope=agent leg); non-trivial = execution with >=2 pool threads whose completion order is not the submit order "
-                "(helper: or with a failing task)" % (5 if run.thorough else 4, len(SHAPES_THOROUGH if run.thorough else SHAPES_QUICK),
-                                                       len(tu), len(t2u), 5 if run.thorough else 4, 5 if run.thorough else 4))
+                "(+ owner_scope=agent leg, owner x cluster leg, two-queries leg) + index-history leg (%d groups): ONE index object "
+                "= add P1, query, then clear()+add P2 (every ordered selection of 2-3 of %d episodes for P1 and P2, so also equal sizes) "
+                "or keep adding P2, then the judged query%s; non-trivial = execution with >=2 pool threads whose completion order is not "
+                "the submit order (helper: or with a failing task)" % (
+                    5 if run.thorough else 4, len(SHAPES_THOROUGH if run.thorough else SHAPES_QUICK),
+                    len(tu), len(t2u), 5 if run.thorough else 4, 5 if run.thorough else 4,
+                    len(t2_history_units(run.thorough)), 4 if run.thorough else 3,
+                    " (+ clear() before any query, + two clear-and-refill cycles)" if run.thorough else ""))
     run.assume("completion order = order in which the task bodies run to completion and their futures become done; the bodies "
                "execute one at a time (interleavings *inside* two task bodies, i.e. at the cache lock points, are explored by C15)")
     run.assume("a ThreadPoolExecutor of w threads starts work items in submit order (checked by a probe on the real pool at start-up); "
-               "tasks the model expects to be running are awaited, a missing one is a harness error, never a verdict")
+               "tasks the model expects to be running are awaited, a missing one is a harness error, never a verdict -- except a "
+               "task whose Future the implementation cancelled while it was still queued: that is observed through the future's "
+               "done-callback (no timing involved), the task leaves the model's queue and the oracle judges the outcome "
+               "(task not executed / failure not reported)")
+    run.assume("index-history leg: the earlier queries of a history run on the free-running pool (only the judged query is gated); "
+               "the sequential twin replays the same history on its own index object under the sequential configuration; histories "
+               "use the index's public mutators add() and clear() only; earlier and judged query texts differ, so the stage-level "
+               "result cache (keyed by query text and index version) cannot answer the judged query")
     run.assume("'real pools under switch-interval jitter' and 'sampled beyond 5 tasks' of the quantifier text are not done (sampling)")
     run.assume("not compared: cache diagnostics (cache_hits, cache_misses, cache_used, cache eviction counters; and, whenever a cache "
                "hit is possible -- pre-warmed cache or a graph listed twice --, the values a hit reports as 0: max_delta, "
